@@ -2305,6 +2305,108 @@ pub enum DatabaseDescriptor {
     SSTables,
 }
 
+/// A structural dump of the database state for the verification hooks.
+#[cfg(raindb_verif)]
+#[derive(Clone, Debug, Default)]
+#[allow(missing_docs)]
+pub struct VerifDump {
+    /// (user key, sequence, operation tag, value) of the active memtable
+    pub memtable: Vec<(Vec<u8>, u64, u8, Vec<u8>)>,
+    /// entries of the immutable memtable, if there is one
+    pub immutable: Option<Vec<(Vec<u8>, u64, u8, Vec<u8>)>>,
+    /// per level: (file number, file size, smallest key, largest key)
+    #[allow(clippy::type_complexity)]
+    pub levels: Vec<Vec<(u64, u64, (Vec<u8>, u64, u8), (Vec<u8>, u64, u8))>>,
+    pub last_sequence: u64,
+    pub snapshots: Vec<u64>,
+    pub live_versions: Vec<Vec<u64>>,
+    pub tables_in_use: Vec<u64>,
+    pub curr_file_number: u64,
+    pub curr_wal_number: u64,
+    pub prev_wal_number: Option<u64>,
+    pub version_set_wal_number: u64,
+    pub manifest_file_number: u64,
+    pub background_compaction_scheduled: bool,
+    pub has_manual_compaction: bool,
+    pub bad_state: Option<String>,
+}
+
+/// Introspection for the verification hooks (`--cfg raindb_verif` only).
+#[cfg(raindb_verif)]
+impl DB {
+    /// Dump the structure of the database under the database mutex.
+    pub fn verif_dump(&self) -> VerifDump {
+        fn entries(memtable: &dyn MemTable) -> Vec<(Vec<u8>, u64, u8, Vec<u8>)> {
+            let mut out = vec![];
+            let mut iter = memtable.iter();
+            if iter.seek_to_first().is_err() {
+                return out;
+            }
+            while let Some((key, value)) = iter.current() {
+                out.push((
+                    key.get_user_key().to_vec(),
+                    key.get_sequence_number(),
+                    key.get_operation() as u8,
+                    value.clone(),
+                ));
+                iter.next();
+            }
+            out
+        }
+        fn key(k: &InternalKey) -> (Vec<u8>, u64, u8) {
+            (
+                k.get_user_key().to_vec(),
+                k.get_sequence_number(),
+                k.get_operation() as u8,
+            )
+        }
+        let guard = self.guarded_fields.lock();
+        let current = guard.version_set.get_current_version();
+        let levels = current
+            .read()
+            .element
+            .files
+            .iter()
+            .map(|files| {
+                files
+                    .iter()
+                    .map(|f| {
+                        (
+                            f.file_number(),
+                            f.get_file_size(),
+                            key(f.smallest_key()),
+                            key(f.largest_key()),
+                        )
+                    })
+                    .collect()
+            })
+            .collect();
+        drop(current);
+        let mut tables_in_use: Vec<u64> = guard.tables_in_use.iter().cloned().collect();
+        tables_in_use.sort_unstable();
+        VerifDump {
+            memtable: entries(&**self.memtable()),
+            immutable: guard
+                .maybe_immutable_memtable
+                .as_ref()
+                .map(|memtable| entries(&***memtable)),
+            levels,
+            last_sequence: guard.version_set.get_prev_sequence_number(),
+            snapshots: guard.snapshots.verif_sequences(),
+            live_versions: guard.version_set.verif_live_versions(),
+            tables_in_use,
+            curr_file_number: guard.version_set.verif_curr_file_number(),
+            curr_wal_number: guard.curr_wal_file_number,
+            prev_wal_number: guard.version_set.maybe_prev_wal_number(),
+            version_set_wal_number: guard.version_set.get_curr_wal_number(),
+            manifest_file_number: guard.version_set.get_manifest_file_number(),
+            background_compaction_scheduled: guard.background_compaction_scheduled,
+            has_manual_compaction: guard.maybe_manual_compaction.is_some(),
+            bad_state: guard.maybe_bad_database_state.as_ref().map(|e| e.to_string()),
+        }
+    }
+}
+
 #[cfg(test)]
 mod db_test;
 
